@@ -581,6 +581,16 @@ def const_truth(t):
     if isinstance(t, (ast.List, ast.Tuple, ast.Dict, ast.Set)):
         n = len(t.elts) if not isinstance(t, ast.Dict) else len(t.keys)
         return n > 0
+    if isinstance(t, ast.Compare) and len(t.ops) == 1 and isinstance(t.left, ast.Constant) and isinstance(t.comparators[0], ast.Constant):
+        a, b, op = t.left.value, t.comparators[0].value, t.ops[0]
+        if isinstance(op, ast.Is):
+            return a is b if (a is None or b is None or isinstance(a, bool) or isinstance(b, bool)) else None
+        if isinstance(op, ast.IsNot):
+            return a is not b if (a is None or b is None or isinstance(a, bool) or isinstance(b, bool)) else None
+        if isinstance(op, ast.Eq):
+            return a == b
+        if isinstance(op, ast.NotEq):
+            return a != b
     return None
 
 
